@@ -6,6 +6,7 @@ HERE="$(cd "$(dirname "$0")" && pwd)"
 cd "$HERE"
 export PYTHONPATH="$HERE/harness:/repo/src"
 /venv/bin/python -m xsmverif.tables "$HERE/lean" >/dev/null
+/venv/bin/python -m xsmverif.c17tables "$HERE/lean" >/dev/null
 cd "$HERE/lean"
 # every property module and every line-protocol driver, so that the checks start from a warm build
 PROPS="$(ls Xsm/Properties/*.lean | sed -e 's#/#.#g' -e 's#\.lean$##')"
